@@ -22,7 +22,25 @@ fn n_class(n: usize) -> &'static str {
 }
 
 pub fn judge_sample<F: Fl>(spec: &Spec, confs: &[(Kind, f64)], case: &dyn Fn() -> Value, l: &mut Local) {
-    let data64 = sample(spec);
+    let mut data64 = sample(spec);
+    if spec.seed % 16 == 7 && data64.len() <= 5000 {
+        // one sample in sixteen is expressed in a unit that puts its sum of squares just below the top
+        // of the exponent range (an exact power-of-two scaling): everything the crate documents (sum,
+        // sum of squares) is still finite, anything larger it forms on the way (e.g. the square of the
+        // sum) is not
+        let q: f64 = data64.iter().map(|x| (x / 1.0e150) * (x / 1.0e150)).sum::<f64>();
+        if q > 0.0 && q.is_finite() {
+            let top = if F::IS32 { 127.0 } else { 1023.0 };
+            let e = ((top - 5.0 - (q.log2() + 2.0 * (1.0e150f64).log2())) / 2.0).floor() as i32;
+            let f = 2f64.powi(e.clamp(-1000, 1000));
+            let scaled: Vec<f64> = data64.iter().map(|x| x * f).collect();
+            let fits = scaled.iter().all(|x| x.is_finite() && (*x == 0.0 || x.abs() >= if F::IS32 { 1e-30 } else { 1e-290 }));
+            if fits {
+                data64 = scaled;
+                l.count("sample scaled to the top of the exponent range");
+            }
+        }
+    }
     let data: Vec<F> = conv::<F>(&data64);
     let n = data.len();
     let st: ExactStats = stats_f64(&data64);
@@ -89,6 +107,12 @@ pub fn judge_sample<F: Fl>(spec: &Spec, confs: &[(Kind, f64)], case: &dyn Fn() -
                 let sl: &[F] = &data[..];
                 let arr: Vec<F> = sl.to_vec();
                 styles.push(("Arithmetic::ci(Vec copy)", call(|| Arithmetic::<F>::ci(c, &arr)).map(|i| F::obs(&i))));
+                // the same sample behind user-defined views whose iterators do not announce their length
+                let lazy = crate::lazy::Lazy(arr.clone());
+                let head = crate::lazy::HeadKnown(arr, n / 2);
+                styles.push(("Arithmetic::ci(view of unknown length)", call(|| Arithmetic::<F>::ci(c, &lazy)).map(|i| F::obs(&i))));
+                styles.push(("MeanCI::ci(view announcing half its length)", call(|| <Arithmetic<F> as MeanCI<F>>::ci(c, &head)).map(|i| F::obs(&i))));
+                styles.push(("from_iter(view of unknown length)+ci_mean", call(|| Arithmetic::<F>::from_iter(&lazy).and_then(|s| s.ci_mean(c))).map(|i| F::obs(&i))));
             }
         }
         for (name, o) in styles.iter() {
@@ -248,6 +272,7 @@ pub fn run(run: &Arc<Run>) {
             }
         }
     }
+    req.push("sample scaled to the top of the exponent range".to_string());
     let r: Vec<&str> = req.iter().map(|s| s.as_str()).collect();
     run.require(&r);
 }
